@@ -391,6 +391,19 @@ def gen_sync():
     text += "def fixReinsertsValue : Bool := %s\n" % str(reinserts).lower()
     text += "/-- sync_detect also fires for entities that just became SyncEntity (values carried at mark time, D2) -/\n"
     text += "def detectSeesNewSyncEntity : Bool := %s\n" % str(detects_added_entity).lower()
+    # C16: the two translation loops and the name a SkinnedMesh change is signalled under
+    tm = fn_body(lib, "to_skinned_mapper")
+    ts = fn_body(lib, "to_skinned_mesh")
+    loops_ok = (bool(re.search(r"for\s+e\s+in\s+&component\.joints\s*\{\s*if\s+let\s+Some\(uuid\)\s*=\s*self\.entity_to_uuid\.get\(e\)\s*\{\s*joints_uuid\.push\(\*uuid\)", tm))
+                and bool(re.search(r"for\s+uuid\s+in\s+&mapper\.joints\s*\{\s*if\s+let\s+Some\(e\)\s*=\s*tracker\.uuid_to_entity\.get\(uuid\)\s*\{\s*joints\.push\(\*e\)", ts))
+                and "mapper.inverse_bindposes" in ts and "inverse_bindposes: poses" in tm)
+    # token name: apply stores under SkinnedMesh's path when the data is a mapper; the signal site must do the same
+    stores_as_skinned = bool(re.search(r"SkinnedMeshSyncMapper>\(\)\s*\{\s*SkinnedMesh::default\(\)\.reflect_type_path\(\)", apply_body))
+    signals_as_skinned = bool(re.search(r"SkinnedMeshSyncMapper>\(\)\s*\{\s*SkinnedMesh::default\(\)\.reflect_type_path\(\)", signal_body))
+    text += "/-- both joint translation loops keep the order and skip unknown ids; bind poses are copied -/\n"
+    text += "def skinLoopsSkipUnknown : Bool := %s\n" % str(loops_ok).lower()
+    text += "/-- a SkinnedMesh change is signalled under the name apply_component_change_from_network stores its token with (D5) -/\n"
+    text += "def skinTokenNameConsistent : Bool := %s\n" % str(stores_as_skinned == signals_as_skinned).lower()
     text += FOOTER
     write("Sync.lean", text)
 
